@@ -97,6 +97,8 @@ type SimNode struct {
 	lastSigs        map[int]map[string]string // block index -> signatures seen at previous check
 	acceptedTxs     [][]byte                  // transactions accepted by this incarnation
 	createdCount    int
+	queuedWitnesses map[int]int
+	clockTicks      int
 	lastAnchor      int
 	anchorEpoch     int
 	completedEvents map[string]bool // hashes whose InsertEvent had returned (store observed at step ends)
@@ -188,12 +190,13 @@ type Cluster struct {
 
 	net *Network
 
-	stepNo  int
-	nesting int // > 0 while a composite step executes its sub-steps
-	steps   []*Step
-	start   time.Time
-	wakeups []func()
-	tasks   []*task
+	stepNo    int
+	refQueued map[int]bool
+	nesting   int // > 0 while a composite step executes its sub-steps
+	steps     []*Step
+	start     time.Time
+	wakeups   []func()
+	tasks     []*task
 
 	// models
 	chain     map[int]string // canonical chain: index -> digest
@@ -400,6 +403,14 @@ func (n *SimNode) clockNow(now int64) int64 {
 	case 3:
 		v := int64(n.c.inner.U64())
 		return v
+	}
+	if n.c.cfg.EventClock {
+		// a clock that also ticks with every event the node creates, at a speed
+		// of its own: no two events of a node (and few of different nodes) claim
+		// the same second, so that medians over witnesses' timestamps actually
+		// depend on which witnesses are counted
+		n.clockTicks++
+		return now + n.clockOff + int64(n.clockTicks)*int64(1+n.idx%3)
 	}
 	return now + n.clockOff
 }
